@@ -18,6 +18,10 @@ pub enum Ty {
     BMap(Box<Ty>, Box<Ty>),
     Tup(Vec<Ty>),
     Res(Box<Ty>, String),
+    /// other generic wrapper, e.g. Box<T>, Arc<T>
+    Gen(String, Vec<Ty>),
+    /// fixed-size array [T; n]
+    Arr(Box<Ty>, usize),
 }
 
 impl Ty {
@@ -36,6 +40,12 @@ impl Ty {
                 ts.iter().map(|t| t.render()).collect::<Vec<_>>().join(", ")
             ),
             Ty::Res(t, e) => format!("Result<{}, {}>", t.render(), e),
+            Ty::Gen(g, ts) => format!(
+                "{}<{}>",
+                g,
+                ts.iter().map(|t| t.render()).collect::<Vec<_>>().join(", ")
+            ),
+            Ty::Arr(t, n) => format!("[{}; {}]", t.render(), n),
         }
     }
     pub fn named(&self, out: &mut BTreeSet<String>) {
@@ -49,8 +59,8 @@ impl Ty {
                 k.named(out);
                 v.named(out);
             }
-            Ty::Tup(ts) => ts.iter().for_each(|t| t.named(out)),
-            Ty::Res(t, _) => t.named(out),
+            Ty::Tup(ts) | Ty::Gen(_, ts) => ts.iter().for_each(|t| t.named(out)),
+            Ty::Res(t, _) | Ty::Arr(t, _) => t.named(out),
         }
     }
     pub fn is_opt(&self) -> bool {
@@ -72,6 +82,12 @@ impl Ty {
                 ts.iter().map(|t| t.context_label()).collect::<Vec<_>>().join(",")
             ),
             Ty::Res(t, _) => format!("Result<{}>", t.context_label()),
+            Ty::Gen(g, ts) => format!(
+                "{}<{}>",
+                g,
+                ts.iter().map(|t| t.context_label()).collect::<Vec<_>>().join(",")
+            ),
+            Ty::Arr(t, _) => format!("[{};n]", t.context_label()),
         }
     }
 }
